@@ -76,6 +76,11 @@ func genC08(r *rt.Rand, tier string, idx int) *world.Scenario {
 			sc.Clients = append(sc.Clients, mk(c, span/2+5))
 		}
 	}
+	if idx%5 == 4 {
+		// the floor check itself may hit a storage fault: it must fail closed
+		sc.Class += "+read-errors"
+		sc.Rates.ReadErr = 0.05 + 0.25*r.Float64()
+	}
 	sc.MaxSteps = 60000
 	return sc
 }
@@ -174,6 +179,9 @@ func checkC08(c *Ctx) {
 					"%s at revision %d (floor %d) failed but delivered %d key-values first", r.Op.K, R, fb, len(data))
 			}
 		case R >= fm:
+			if failed && c.Sc.Rates.ReadErr > 0 {
+				continue // with injected read errors a read may fail, never differ
+			}
 			if failed {
 				out.violate(P, "read-above-floor-refused", "read-above-floor-refused op="+r.Op.K,
 					"%s at revision %d failed (%s) although no compaction above %d was ever requested before it returned", r.Op.K, R, r.Err, fm)
